@@ -178,8 +178,10 @@ def gen_offset(rng, notation_time, allow_nominal=True):
             [("2", "D"), ("3", "H"), ("4", "M"), ("5", "S")],
             [("0,5", "H")], [("1.5", "M")], [("0,25", "S")],
             [("90", "M"), ("30,5", "S")]])
-    return {"text": cm.duration_text(parts, neg),
-            "us": cm.duration_us(parts, neg)}
+    text = cm.duration_text(parts, neg)
+    if not neg and rng.random() < 0.1:
+        text = "+" + text          # an explicit plus sign is accepted too
+    return {"text": text, "us": cm.duration_us(parts, neg)}
 
 
 def spell_offsets(rng, offsets, which=1):
@@ -834,7 +836,7 @@ class Sim(object):
             if text.startswith("-"):
                 p = p - dparser.parse(text[1:])
             else:
-                p = p + dparser.parse(text)
+                p = p + dparser.parse(text.lstrip("+"))
         pf = spec.get("pf")
         if pf is None and spec.get("pfmt"):
             fmt = spec["pfmt"]
@@ -1124,7 +1126,7 @@ class Sim(object):
             for o in offs:
                 t = o["text"]
                 tp = tp - dparser.parse(t[1:]) if t.startswith("-") else (
-                    tp + dparser.parse(t))
+                    tp + dparser.parse(t.lstrip("+")))
             pts.append(tp)
         if text.startswith("-"):
             d = dparser.parse(text[1:]) * -1
